@@ -1,3 +1,4 @@
+import Deltio.Lemmas.Attach
 import Deltio.Lemmas.SysInv
 import Deltio.Model.System
 import Deltio.Props.C17
@@ -169,5 +170,64 @@ theorem C10_delete_topic_all (ops : List SysOp) (raw : Bytes) (n : Name) (t : To
         · exact ih hnd.2 a ha b hb hab
     rw [inj _ hk t' ht' t ht (by rw [hn, htn])]
   exact (C10_delete_topic _ raw n t hp hf hu).2.1
+
+/-! ### All interleavings of create / delete of one subscription name (slice P1, Deltio/Proto/Attach.lean) -/
+section P1slice
+open P1
+
+/-- The step at which CreateSubscription answers OK (`mark_attach_finished` follows the topic's reply):
+    the subscription is then registered and attached — every later request observes both. -/
+theorem C10_create_returns_registered (s s' : State) (hr : Reachable (init true) s) (g : Nat)
+    (hs : step s (.attachFinish g) = some s') : s'.mgr = some g ∧ s'.topic = some g := by
+  have h := inv_reachable s hr
+  have h' := inv_step h _ hs
+  simp only [step] at hs
+  split at hs
+  · rename_i hg
+    have hm := active_is_cur h g (Or.inl (by rw [hg]; simp))
+    simp only [Option.some.injEq] at hs
+    have hm' : s'.mgr = some g := by rw [← hs]; exact hm
+    obtain ⟨_, _, c3, _, _, c6, _⟩ := h'.cur g hm'
+    refine ⟨hm', ?_⟩
+    rw [c3]
+    have ha : (s'.gen g).att = .finished := by rw [← hs]; simp [upd]
+    have hh : (s'.gen g).helper = .none := by
+      obtain ⟨_, _, _, _, _, d6, _⟩ := h.cur g hm
+      have : (s.gen g).helper = .none := by
+        cases hx : (s.gen g).helper <;> first | rfl | (have := d6 (by rw [hx]; simp); rw [hg] at this; cases this)
+      rw [← hs]; simp [upd, this]
+    simp [expectedTopic, ha, hh]
+  · cases hs
+
+/-- The step at which DeleteSubscription answers OK (`finish_delete`) removes exactly the registered
+    generation it was called on, and that generation is already detached from the topic: afterwards
+    the name is absent everywhere. -/
+theorem C10_delete_returns_absent (s s' : State) (hr : Reachable (init true) s) (g : Nat)
+    (hs : step s (.helperFinish g) = some s') : s.mgr = some g ∧ s'.mgr = none ∧ s'.topic = none ∧ s'.mbT = [] := by
+  have h := inv_reachable s hr
+  have h' := inv_step h _ hs
+  simp only [step] at hs
+  split at hs
+  · rename_i hg
+    have hm := active_is_cur h g (Or.inr (Or.inl (by rw [hg]; simp)))
+    simp only [Option.some.injEq] at hs
+    have hm' : s'.mgr = none := by rw [← hs]
+    exact ⟨hm, hm', h'.empty hm'⟩
+  · cases hs
+
+/-- A name can be re-created only after the previous generation is completely gone. -/
+theorem C10_recreate_after_gone (s s' : State) (hr : Reachable (init true) s) (hs : step s .create = some s') :
+    s.topic = none ∧ s.mbT = [] ∧ ∀ g, g < s.next → (s.gen g).att = .finished ∧ (s.gen g).helper = .done := by
+  have h := inv_reachable s hr
+  simp only [step] at hs
+  split at hs
+  · rename_i hn
+    refine ⟨(h.empty hn).1, (h.empty hn).2, ?_⟩
+    intro g hg
+    have := h.old g hg (by rw [hn]; simp)
+    exact ⟨this.1, this.2.1⟩
+  · cases hs
+
+end P1slice
 
 end Deltio
